@@ -1,4 +1,5 @@
 //! C02/C03/C11: single-field and structural alterations of honest proofs
+use crate::fixtures::issue;
 use crate::pres::*;
 use crate::rng::Rng;
 use crate::util::*;
@@ -220,16 +221,27 @@ pub fn gen_tamper(thorough: bool, rng: &mut Rng, only_pred: bool) -> Result<(), 
     let pool = Pool::load()?;
     let nsc = if thorough { 25 } else { 2 };
     let mut k = 0;
-    for s in 0..nsc {
+    // forced scenarios at the ends of the i32 range (tamper_ne): the honest non-strict proof with
+    // delta = 0 relabelled to the strict type must not be accepted ('GT i32::MAX' is false of every value)
+    let forced: Vec<(i64, &str)> = if only_pred { vec![(i32::MAX as i64, "GE"), (i32::MIN as i64, "LE"), (i32::MAX as i64 - 1, "GE"), (i32::MIN as i64 + 1, "LE")] } else { vec![] };
+    for s in 0..nsc + forced.len() {
         // scenarios with at least one predicate and one revealed attribute
-        let sc = loop {
+        let sc = if s >= nsc {
+            let (age, pt) = forced[s - nsc];
+            let link = dec_of_hex(&rng.hex_bits(255));
+            let mut h = hold(&pool, "gvt_rev", &link, rng)?;
+            h.known.insert("age".into(), age.to_string());
+            h.cred = issue(pool.get("gvt_rev"), &h.known, &h.hidden, "p", None)?;
+            let req = ReqSpec { revealed: vec!["name".to_string()], predicates: vec![PredSpec { attr: "age".into(), ptype: pt.into(), value: age as i32 }] };
+            Scenario { held: vec![h], reqs: vec![req], common: vec![], nonce: new_nonce().map_err(|e| e.to_string())? }
+        } else { loop {
             let sc = random_scenario(&pool, rng, true)?;
             let np: usize = sc.reqs.iter().map(|r| r.predicates.len()).sum();
             let nr: usize = sc.reqs.iter().map(|r| r.revealed.len()).sum();
             if np >= 1 && nr >= 1 && (s % 2 == 0 || sc.held.len() >= 2) {
                 break sc;
             }
-        };
+        } };
         let (_adds, proof) = prove(&pool, &sc);
         let proof = match proof {
             Out::Ok(p) => p,
@@ -265,6 +277,49 @@ pub fn gen_tamper(thorough: bool, rng: &mut Rng, only_pred: bool) -> Result<(), 
             emit(&verify_case(&format!("tamper/{}/{}", s, k), &pool, &sc, &alt.proof, &nonce2_dec, implv,
                 json!({"alteration": class_name, "ncred": sc.held.len()})));
             k += 1;
+            // a relabelled / shifted predicate shown to a verifier that ASKS for the altered predicate:
+            // the request-consistency check passes, only the predicate arithmetic stands in the way
+            if alt.name.contains(".predicate.") {
+                let mut reqs2 = sc.reqs.clone();
+                let mut changed = false;
+                if let (Some(subs0), Some(subs1)) = (base["proofs"].as_array(), alt.proof["proofs"].as_array()) {
+                    for (si, (b, a)) in subs0.iter().zip(subs1.iter()).enumerate() {
+                        let (g0, g1) = (b["primary_proof"]["ge_proofs"].as_array().cloned().unwrap_or_default(), a["primary_proof"]["ge_proofs"].as_array().cloned().unwrap_or_default());
+                        for (p0, p1) in g0.iter().zip(g1.iter()) {
+                            if p0["predicate"] != p1["predicate"] {
+                                let (o, n) = (&p0["predicate"], &p1["predicate"]);
+                                for ps in reqs2[si].predicates.iter_mut() {
+                                    if !changed && ps.attr == o["attr_name"].as_str().unwrap_or("") && ps.ptype == o["p_type"].as_str().unwrap_or("") && ps.value as i64 == o["value"].as_i64().unwrap_or(i64::MAX) {
+                                        ps.ptype = n["p_type"].as_str().unwrap_or("").to_string();
+                                        ps.value = n["value"].as_i64().unwrap_or(0) as i32;
+                                        changed = true;
+                                    }
+                                }
+                            }
+                        }
+                    }
+                }
+                // the altered predicate must not coincide with another requested one (sets)
+                let dup = reqs2.iter().any(|r| { let mut seen = std::collections::BTreeSet::new(); r.predicates.iter().any(|p| !seen.insert((p.attr.clone(), p.ptype.clone(), p.value))) });
+                if changed && !dup {
+                    let res: Out<bool> = match from_jv::<Proof>(&alt.proof) {
+                        Ok(p) => verify_reqs(&pool, &sc, &reqs2, &p, &nonce2),
+                        Err(e) => Out::Err(format!("decode: {}", e)),
+                    };
+                    let mut oracles = vec![];
+                    if matches!(res, Out::Ok(true)) {
+                        oracles.push(json!({"name":"altered_proof_rejected","ok":false,"detail":format!("proof accepted after alteration '{}' by a verifier asking for the altered predicate (ne relabelled)", alt.name)}));
+                    }
+                    if matches!(res, Out::Panic(_)) {
+                        oracles.push(json!({"name":"verify_no_panic","ok":false,"detail":format!("verify panicked after alteration '{}' (request follows): {}", alt.name, res.msg())}));
+                    }
+                    let mut implv = out_bool_json(&res);
+                    implv["oracles"] = json!(oracles);
+                    emit(&verify_case_reqs(&format!("tamper/{}/{}r", s, k), &pool, &sc, &reqs2, &alt.proof, &nonce2_dec, implv,
+                        json!({"alteration": format!("{} (request follows)", class_name), "ncred": sc.held.len()})));
+                    k += 1;
+                }
+            }
         }
     }
     Ok(())
